@@ -82,8 +82,8 @@ fn count_arithmetic_matches_tex() {
             };
             if !ok {
                 let obs = match &got { None => "panic".to_string(), Some(Ok(o)) => format!("prints {}", o.trim()), Some(Err(_)) => "reports an error".to_string() };
-                println!("WITNESS {{\"fn\": \"apply\", \"unit_fns\": [\"apply\"], \"a\": {a}, \"b\": {b}, \"op\": \"{op}\", \"observed\": \"{obs}\", \"expected\": \"{}\"}}",
-                    match want { Ok(w) => format!("{w}"), Err(()) => "an arithmetic error, register unchanged".to_string() });
+                println!("WITNESS {{\"fn\": \"{}\", \"unit_fns\": [\"apply\"], \"a\": {a}, \"b\": {b}, \"op\": \"{op}\", \"observed\": \"{obs}\", \"expected\": \"{}\"}}",
+                    if got.is_none() { "run" } else { "apply" }, match want { Ok(w) => format!("{w}"), Err(()) => "an arithmetic error, register unchanged".to_string() });
                 failures += 1;
                 if failures >= 12 { return; }
             }
@@ -111,7 +111,7 @@ fn glue_advance_matches_tex() {
         let got = run(&src);
         if !matches!(&got, Some(Ok(out)) if out.trim() == want) {
             let obs = match &got { None => "panic".to_string(), Some(Ok(o)) => format!("prints {}", o.trim()), Some(Err(_)) => "reports an error".to_string() };
-            println!("WITNESS {{\"fn\": \"wrapping_add\", \"unit_fns\": [\"apply\", \"wrapping_add\"], \"source\": \"{}\", \"observed\": \"{obs}\", \"expected\": \"{want} (TeX.2021.1239)\"}}", src.replace('\\', "\\\\"));
+            println!("WITNESS {{\"fn\": \"{}\", \"unit_fns\": [\"apply\", \"wrapping_add\"], \"source\": \"{}\", \"observed\": \"{obs}\", \"expected\": \"{want} (TeX.2021.1239)\"}}", if got.is_none() { "run" } else { "wrapping_add" }, src.replace('\\', "\\\\"));
             failures += 1;
             if failures >= 6 { return; }
         }
@@ -263,7 +263,172 @@ fn alphabetic_constants() {
         let ok = matches!(&got, Ok(Ok(out)) if out.split_whitespace().collect::<String>() == want);
         if !ok {
             let obs = match &got { Err(_) => "panic".to_string(), Ok(Err(_)) => "error".to_string(), Ok(Ok(o)) => o.split_whitespace().collect::<String>() };
-            println!("WITNESS {{\"fn\": \"parse_character\", \"unit_fns\": [\"parse_character\", \"parse_integer\"], \"source\": \"{}\", \"observed\": \"{}\", \"expected\": \"{want} (TeX.2021.442)\"}}", src.replace('\\', "\\\\"), obs.replace('"', "'").replace('\\', "/"));
+            println!("WITNESS {{\"fn\": \"{}\", \"unit_fns\": [\"parse_character\", \"parse_integer\"], \"source\": \"{}\", \"observed\": \"{}\", \"expected\": \"{want} (TeX.2021.442)\"}}", if got.is_err() { "run" } else { "parse_character" }, src.replace('\\', "\\\\"), obs.replace('"', "'").replace('\\', "/"));
         }
     }
+}
+
+/// TeX.2021.103 print_scaled
+fn print_scaled_tex(v: i64) -> String {
+    let mut out = String::new();
+    let mut s = v;
+    if s < 0 { out.push('-'); s = -s; }
+    out.push_str(&format!("{}.", s / 65536));
+    s = 10 * (s % 65536) + 5;
+    let mut delta = 10;
+    loop {
+        if delta > 65536 { s = s + 32768 - 50000; }
+        out.push((b'0' + (s / 65536) as u8) as char);
+        s = 10 * (s % 65536);
+        delta *= 10;
+        if s <= delta { break; }
+    }
+    out
+}
+/// TeX.2021.107 xn_over_d with d = 2^16 applied to a signed x (the sign is put back on the result)
+fn frac_of(x: i64, f: i64) -> i64 { let m = (x.abs() as i128 * f as i128 / 65536) as i64; if x < 0 { -m } else { m } }
+
+/// C06 "coercions between integer, dimension and glue": internal quantities (registers, \chardef / \mathchardef names,
+/// \catcode entries) used as integers, dimensions, glue and units (TeX.2021.413, 448-455, 461), and the arithmetic
+/// primitives on \dimen and \skip, against values computed here with TeX's integer algorithms
+#[test]
+fn internal_quantities_match_tex() {
+    std::panic::set_hook(Box::new(|_| {}));
+    let max = (1i64 << 30) - 1;
+    let mut cases: Vec<(String, String)> = Vec::new();
+    for n in [0i64, 1, -1, 7, -7, 255, 16383, -16383, 65536, -65537, 1073741823, -1073741823, 2147483647, -2147483647] {
+        let set = format!(r"\count1={n} ");
+        cases.push((format!(r"{set}\count2=\count1 \the\count2"), format!("{n}")));
+        cases.push((format!(r"{set}\count2=-\count1 \the\count2"), format!("{}", -n)));
+        cases.push((format!(r"{set}\count2=--\count1 \the\count2"), format!("{n}")));
+        cases.push((format!(r"{set}\count2=+ - +\count1 \the\count2"), format!("{}", -n)));
+        if n.abs() <= max {
+            cases.push((format!(r"{set}\dimen2=\count1 sp \count2=\dimen2 \the\count2"), format!("{n}")));
+            cases.push((format!(r"{set}\dimen2=-\count1 sp \the\dimen2"), format!("{}pt", print_scaled_tex(-n))));
+            cases.push((format!(r"{set}\skip2=\count1 sp plus \count1 sp minus -\count1 sp \the\skip2"),
+                if n == 0 { "0.0pt".to_string() } else { format!("{0}pt plus {0}pt minus {1}pt", print_scaled_tex(n), print_scaled_tex(-n)) }));
+        }
+        if n.abs() <= 16383 {
+            cases.push((format!(r"{set}\dimen2=\count1 pt \the\dimen2"), format!("{}pt", print_scaled_tex(n * 65536))));
+            cases.push((format!(r"{set}\dimen2=-\count1 pt \count2=\dimen2 \the\count2"), format!("{}", -n * 65536)));
+        }
+    }
+    for d in [0i64, 1, -1, 7, -7, 65536, -65536, 100000, -100000, 12345678, -12345678, 357913941, 1073741823, -1073741823] {
+        let set = format!(r"\dimen1={d}sp ");
+        cases.push((format!(r"{set}\count2=\dimen1 \the\count2"), format!("{d}")));
+        cases.push((format!(r"{set}\count2=-\dimen1 \the\count2"), format!("{}", -d)));
+        cases.push((format!(r"{set}\dimen2=\dimen1 \the\dimen2"), format!("{}pt", print_scaled_tex(d))));
+        cases.push((format!(r"{set}\dimen2=-\dimen1 \the\dimen2"), format!("{}pt", print_scaled_tex(-d))));
+        cases.push((format!(r"{set}\skip2=\dimen1 \the\skip2"), format!("{}pt", print_scaled_tex(d))));
+        cases.push((format!(r"{set}\skip2=-\dimen1 \count2=\skip2 \the\count2"), format!("{}", -d)));
+        cases.push((format!(r"{set}\advance\dimen1 by -\dimen1 \the\dimen1"), "0.0pt".to_string()));
+        cases.push((format!(r"{set}\count3=5 \advance\count3 by \dimen1 \the\count3"), format!("{}", 5 + d)));
+        cases.push((format!(r"{set}\count3=5 \advance\count3 -\dimen1 \the\count3"), format!("{}", 5 - d)));
+        cases.push((format!(r"{set}\count3=5 \ifnum\dimen1>\count3 a\else b\fi"), (if d > 5 { "a" } else { "b" }).to_string()));
+        cases.push((format!(r"{set}\divide\dimen1 by 3 \count2=\dimen1 \the\count2"), format!("{}", d / 3)));
+        cases.push((format!(r"{set}\divide\dimen1 by -3 \count2=\dimen1 \the\count2"), format!("{}", d / -3)));
+        // a decimal coefficient times an internal dimension: TeX.2021.455-456 nx_plus_y(integer part, v, xn_over_d(v, f, 2^16))
+        for (coef, ip, f) in [("1.5", 1i64, 32768i64), ("0.3", 0, 19661), ("2", 2, 0), ("-1.5", -1, -32768), (".75", 0, 49152), ("-0.3", 0, -19661)] {
+            let neg = coef.starts_with('-');
+            let r = ip.abs() * d + frac_of(d, f.abs());
+            let r = if neg { -r } else { r };
+            if r.abs() <= max {
+                cases.push((format!(r"{set}\dimen2={coef}\dimen1 \count2=\dimen2 \the\count2"), format!("{r}")));
+            }
+        }
+        if (3 * d).abs() <= max {
+            cases.push((format!(r"{set}\multiply\dimen1 by -3 \count2=\dimen1 \the\count2"), format!("{}", -3 * d)));
+            cases.push((format!(r"{set}\skip2=\dimen1 plus 2\dimen1 minus -\dimen1 \the\skip2"),
+                if d == 0 { "0.0pt".to_string() } else { format!("{}pt plus {}pt minus {}pt", print_scaled_tex(d), print_scaled_tex(2 * d), print_scaled_tex(-d)) }));
+        }
+    }
+    for w in [0i64, 1, -1, 65536, -98304, 100001, 357913941, -357913941] {
+        let set = format!(r"\skip1={w}sp plus 3pt minus 2fil ");
+        cases.push((format!(r"{set}\count2=\skip1 \the\count2"), format!("{w}")));
+        cases.push((format!(r"{set}\count2=-\skip1 \the\count2"), format!("{}", -w)));
+        cases.push((format!(r"{set}\dimen2=\skip1 \the\dimen2"), format!("{}pt", print_scaled_tex(w))));
+        cases.push((format!(r"{set}\dimen2=-\skip1 \count2=\dimen2 \the\count2"), format!("{}", -w)));
+        cases.push((format!(r"{set}\dimen2=2\skip1 \count2=\dimen2 \the\count2"), format!("{}", 2 * w)));
+        cases.push((format!(r"{set}\skip2=\skip1 \the\skip2"), format!("{}pt plus 3.0pt minus 2.0fil", print_scaled_tex(w))));
+        cases.push((format!(r"{set}\skip2=-\skip1 \the\skip2"), format!("{}pt plus -3.0pt minus -2.0fil", print_scaled_tex(-w))));
+        cases.push((format!(r"{set}\skip2=--\skip1 \the\skip2"), format!("{}pt plus 3.0pt minus 2.0fil", print_scaled_tex(w))));
+        cases.push((format!(r"{set}\multiply\skip1 by 3 \the\skip1"), format!("{}pt plus 9.0pt minus 6.0fil", print_scaled_tex(3 * w))));
+        cases.push((format!(r"{set}\multiply\skip1 -1 \the\skip1"), format!("{}pt plus -3.0pt minus -2.0fil", print_scaled_tex(-w))));
+        cases.push((format!(r"{set}\divide\skip1 by -2 \the\skip1"), format!("{}pt plus -1.5pt minus -1.0fil", print_scaled_tex(w / -2))));
+        cases.push((format!(r"{set}\divide\skip1 by 4 \the\skip1"), format!("{}pt plus 0.75pt minus 0.5fil", print_scaled_tex(w / 4))));
+        cases.push((format!(r"{set}\advance\skip1 by -\skip1 \the\skip1"), "0.0pt".to_string()));
+        cases.push((format!(r"{set}\skip2=\skip1 \advance\skip2 by \skip1 \the\skip2"), format!("{}pt plus 6.0pt minus 4.0fil", print_scaled_tex(2 * w))));
+    }
+    for n in [0i64, 1, 65, 255] {
+        cases.push((format!(r"\chardef\c={n} \count2=\c \the\count2"), format!("{n}")));
+        cases.push((format!(r"\chardef\c={n} \count2=-\c \the\count2"), format!("{}", -n)));
+        cases.push((format!(r"\chardef\c={n} \the\c"), format!("{n}")));
+        cases.push((format!(r"\chardef\c={n} \dimen2=\c pt \the\dimen2"), format!("{n}.0pt")));
+        cases.push((format!(r"\chardef\c={n} \dimen2=1.5\c \count2=\dimen2 \the\count2"), format!("{}", n + n * 32768 / 65536)));
+    }
+    for n in [0i64, 1, 4660, 28672, 32767] {
+        cases.push((format!(r"\mathchardef\m={n} \count2=\m \the\count2"), format!("{n}")));
+        cases.push((format!(r"\mathchardef\m={n} \the\m"), format!("{n}")));
+        cases.push((format!(r"\mathchardef\m={n} \dimen2=\m sp \count2=\dimen2 \the\count2"), format!("{n}")));
+    }
+    for c in [0i64, 9, 12, 15] {
+        cases.push((format!(r"\catcode`\~={c} \count2=\catcode`\~ \the\count2"), format!("{c}")));
+        cases.push((format!(r"\catcode`\~={c} \the\catcode`\~"), format!("{c}")));
+        cases.push((format!(r"\catcode`\~={c} \dimen2=\catcode`\~ pt \the\dimen2"), format!("{c}.0pt")));
+    }
+    // beyond the range of the code: the documented error (TeX.2021.1232 "Invalid code"), never a value taken modulo 256
+    for c in [16i64, 17, 255, 256, 267, 271, 65536, 65547, -1, -245, -256, 2147483647, -2147483647] {
+        cases.push((format!(r"\catcode`\~={c} \the\catcode`\~"), "!error".to_string()));
+    }
+    // (texcraft's characters are Unicode scalar values: \chardef accepts what `char` does)
+    for c in [1114112i64, 1114177, 16777216, 2147483647, -1, -191, -256] {
+        cases.push((format!(r"\chardef\c={c} \the\c"), "!error".to_string()));
+    }
+    for c in [32769i64, 65536, 98304, -1, -32768, -65535] {
+        cases.push((format!(r"\mathchardef\m={c} \the\m"), "!error".to_string()));
+    }
+    cases.push((r"\count2=\catcode`a \the\count2".to_string(), "11".to_string()));
+    cases.push((r"\count2=\catcode`\\ \the\count2".to_string(), "0".to_string()));
+    cases.push((r"\count2=\catcode`1 \the\count2".to_string(), "12".to_string()));
+    for (unit, sp) in [("pt", 65536i64), ("pc", 786432), ("in", 4736286), ("bp", 65781), ("cm", 1864679), ("mm", 186467), ("dd", 70124), ("cc", 841489), ("sp", 1)] {
+        cases.push((format!(r"\dimen2=1{unit} \count2=\dimen2 \the\count2"), format!("{sp}")));
+        cases.push((format!(r"\dimen2=1 true{unit} \count2=\dimen2 \the\count2"), format!("{sp}")));
+        // KNOWN FINDING (class below): TeX's scan_keyword skips spaces before EVERY keyword (TeX.2021.407), so `true pt` is 1pt
+        if unit == "pt" || unit == "mm" { cases.push((format!(r"\dimen2=1true {unit} \count2=\dimen2 \the\count2"), format!("{sp}"))); }
+        cases.push((format!(r"\dimen2=-1{unit} \count2=\dimen2 \the\count2"), format!("{}", -sp)));
+        cases.push((format!(r"\skip2=0pt plus 1{unit} minus -1{unit} \dimen2=\skip2 \the\skip2"),
+            format!("0.0pt plus {}pt minus {}pt", print_scaled_tex(sp), print_scaled_tex(-sp))));
+    }
+    // same class: `fil l` is fill, `fil l l` is filll (TeX.2021.454 scans each l with scan_keyword)
+    cases.push((r"\skip2=0pt plus 1fil l\relax \the\skip2".to_string(), "0.0pt plus 1.0fill".to_string()));
+    cases.push((r"\skip2=0pt plus 1fill minus 2fil L l\relax \the\skip2".to_string(), "0.0pt plus 1.0fill minus 2.0filll".to_string()));
+    let n_cases = cases.len();
+    let mut failures = 0;
+    for (src, want) in cases {
+        // (\relax before the final \the: after a glue without `plus` / `minus`, or a number without a space, TeX looks ahead WITH
+        //  expansion, so a \the right behind it would be expanded before the assignment is done - in TeX too)
+        let src = src.replace(r" \the", r" \relax\the");
+        let got = run(&src);
+        let strip = |s: &str| s.split_whitespace().collect::<String>();
+        if want == "!error" { if matches!(&got, Some(Err(_))) { continue; } }
+        else if matches!(&got, Some(Ok(out)) if strip(out) == strip(&want)) { continue; }
+        let (f, obs) = match &got { None => ("run", "panic".to_string()), Some(Ok(o)) => ("internal_quantity", format!("prints {}", o.trim())), Some(Err(e)) => ("internal_quantity", format!("reports an error: {}", e.lines().next().unwrap_or(""))) };
+        // the known finding is labelled only when the failure is exactly the one it describes: the keyword after the space is not
+        // seen (an error for the missing unit; the l's typeset as text before the value of the glue is printed)
+        let known = match &got {
+            Some(Err(_)) => src.contains("=1true ") && want != "!error",
+            Some(Ok(o)) => (src.contains("1fil l\\relax") && strip(o) == "l0.0ptplus1.0fil") || (src.contains("2fil L l\\relax") && strip(o) == "Ll0.0ptplus1.0fillminus2.0fil"),
+            None => false,
+        };
+        if known {
+            println!("WITNESS {{\"fn\": \"internal_quantity\", \"class\": \"spaces before a keyword that follows the keyword true or fil are not skipped\", \"source\": \"{}\", \"observed\": \"{}\", \"expected\": \"{want} (TeX.2021.407, 454, 457)\"}}",
+                src.replace('\\', "\\\\"), obs.replace('\\', "/").replace('"', "'"));
+            continue;
+        }
+        println!("WITNESS {{\"fn\": \"{f}\", \"unit_fns\": [\"parse_internal_number\", \"parse_impl\", \"scan_dimen\", \"apply\"], \"source\": \"{}\", \"observed\": \"{}\", \"expected\": \"{want} (TeX.2021.413, 448-461, 1236-1240)\"}}",
+            src.replace('\\', "\\\\"), obs.replace('\\', "/").replace('"', "'"));
+        failures += 1;
+        if failures >= 10 { return; }
+    }
+    println!("STATS {{\"driver\": \"internal quantities\", \"programs\": {n_cases}}}");
 }
